@@ -303,9 +303,17 @@ PROBES = [
 ]
 
 
+# open finding (KNOWN_FINDINGS.txt lists this exact witness): the attribute form of a projection is pushed into First() only when
+# the First() call is written literally under the attribute; after substitution the dictionary stays.  Repairing it changes
+# the output pinned by test_select_select_convolution_with_first (First(e.jets).pt() must stay as it is).
+KNOWN_OPEN = [
+    ("Select(Select(ds, lambda e: First(Select(e.jets, lambda j: {'pt': j.pt, 'eta': j.a}))), lambda d: d.pt)", ("leaf", "int")),
+]
+
+
 def run(ctx):
     datasets = sc.make_datasets(random.Random(20260927))
-    cases = [(sc.parse(s), sh, True) for s, sh in PROBES]
+    cases = [(sc.parse(s), sh, True) for s, sh in KNOWN_OPEN + PROBES]
     for naming, n in (("distinct", ctx.budget(200, 8000)), ("any", ctx.budget(200, 8000)), ("same", ctx.budget(120, 5000))):
         g = ChainGen(ctx.rng, naming, ctx.rng.choice([0.0, 0.3, 0.6]))
         for _ in range(n):
@@ -330,7 +338,7 @@ def run(ctx):
             ctx.fail("no-failing-input-found", "correspondence simp vs simplify_chained_calls broke on %s: model %s, code %s" % (
                 bridge.dump(qe), m[:300], il[:300]),
                 {"correspondence": "simp", "query": bridge.dump(qe), "query_dump": ast.dump(qe), "model": m[:2000], "impl": il[:2000]})
-    for q, shape, _ in cases[:3] + cases[len(PROBES):len(PROBES) + 4]:
+    for q, shape, _ in cases[1:4] + cases[len(PROBES) + 1:len(PROBES) + 5]:
         from func_adl.ast.func_adl_ast_utils import change_extension_functions_to_calls
         st, out, _c = sc.impl(change_extension_functions_to_calls(copy.deepcopy(q)))
         ctx.sample({"chain": bridge.dump(q), "simplified": bridge.dump(out) if st == "ok" else st})
